@@ -84,3 +84,27 @@ def register(reg):
         "(product, orthogonality/balance, pair corners + centre, disjoint cover) is checked exactly.",
         "Documented refusals (ValueError, size assertion) are accepted results.",
         "DESIGN.md section 5 C13")
+
+    reg("C19", "BFS", "model_checking",
+        "exhaustive exploration of request x hook-answer sequences in lockstep with a reference automaton",
+        "Every sequence of evaluation requests to depth 7 (thorough 10) with every accept/decline answer of the predict hook, for "
+        "every train_step, initial trained flag and hook presence, on both real predicting wrappers (stub regressors) and the "
+        "pass-through wrapper; after each request returned object, objective log, counters, training set, fit calls and trained "
+        "flag are compared with a six-line automaton. Counters are unbounded, so this is depth-bounded, not a fixed point.",
+        "Regressor numerics are stubbed out; only the wrapper's accounting is in scope.",
+        "DESIGN.md section 5 C19")
+    reg("C06", "CHOICE", "fault_enumeration",
+        "exhaustive fault-pattern enumeration on the real retry loop (stateless choice-sequence explorer)",
+        "Each objective call is a free four-way environment choice; all patterns over serial batches of one and two designs are "
+        "executed (94 leaves per design, including exactly four and exactly five consecutive failures and both transient types), "
+        "re-sampled coordinates additionally pushed to both extremes, and every execution is judged by a reference retry protocol.",
+        "Faults are raised by the harness wrapper at objective entry; parallel-worker failures are explored in C07's harness.",
+        "DESIGN.md section 5 C06")
+    reg("C05", "ENUM", "exploration",
+        "bounded exhaustive enumeration of batches/histories/sign and constraint assignments + per-call oracle on every scalar optimiser",
+        "All batches of <=3 designs with every new/evaluated mix, evaluated 1-3 times, serial and through the 2-worker model executor; "
+        "every min/max/absent assignment x cost values incl. rounding cases; every pair of constraint outcomes; sweeps over four "
+        "generator kinds; and all 8 Jacobian-free SciPy methods and 13 NLopt algorithms artap lists, each call checked against "
+        "the call log (vector recorded, true cost stored, signed cost handed back).",
+        "Which points SciPy/NLopt query is theirs to choose; the oracle is per call.",
+        "DESIGN.md section 5 C05")
